@@ -259,6 +259,30 @@ theorem cds_roundtrip_history (hrt : ∀ v, deser (ser v) = some v) (hnr : ∀ v
   have h2 := run_coherent_extends (asStr := asStr) hrt hnr hnc c after st1 hco1 ha
   exact ⟨st1, data, h1, h3 c _ hc h2.1 h2.2⟩
 
+/-- **a reference always resolves to the content it was created from — whatever this process believed before**:
+    the starting store `st` is arbitrary, in particular its LRU may hold keys the backend no longer has (another
+    process purged the backend: `foreignPurge`).  The text `serialize` returns is resolved to `v` by a process with
+    an empty cache reading the same backend.  (`serialize` writes the backend entry on every call.) -/
+theorem fresh_process_resolves (hrt : ∀ v, deser (ser v) = some v) (hnr : ∀ v, isRef (ser v) = false)
+    (hnc : NoColl H S) (c : Conf) (hc : 1 ≤ c.cacheSize) (st : Store V) (v : V) (hS : S (ser v)) (dis : Bool)
+    (guard : ∀ s, asStr v = some s → isRef s = false) (c2 : Conf) (hc2 : 1 ≤ c2.cacheSize) :
+    ∃ st1 data, serialize ser asStr H c st v dis = (st1, some data) ∧ freshResolve deser c2 st1 data = .ok v := by
+  obtain ⟨st1, data, h1, h2, _⟩ := resolve_of_serialized (asStr := asStr) hrt hnr hnc c hc st v hS dis guard
+  refine ⟨st1, data, h1, ?_⟩
+  rcases h2 with h | ⟨hk, hget⟩
+  · subst h
+    simp [freshResolve, resolve, hnr, hrt]
+  · have hr : isRef data = true := by rw [hk]; exact C15P.isRef_genKey H (ser v)
+    have hlen : ¬ (0 ≥ c2.cacheSize) := by omega
+    simp [freshResolve, resolve, hr, AMap.get?, hget, hrt, cachePut, hlen]
+
+theorem fresh_process_resolves_after_foreign_purge (hrt : ∀ v, deser (ser v) = some v)
+    (hnr : ∀ v, isRef (ser v) = false) (hnc : NoColl H S) (c : Conf) (hc : 1 ≤ c.cacheSize) (st : Store V) (v : V)
+    (hS : S (ser v)) (dis : Bool) (guard : ∀ s, asStr v = some s → isRef s = false) :
+    ∃ st1 data, serialize ser asStr H c (foreignPurge st) v dis = (st1, some data) ∧
+      freshResolve deser c st1 data = .ok v :=
+  fresh_process_resolves hrt hnr hnc c hc (foreignPurge st) v hS dis guard c hc
+
 /-- non-vacuity of the hypotheses: values = strings, serializer = quoting, identity "hash" on all texts -/
 example : ∃ (ser : Str → Str) (deser : Str → Option Str) (H : Str → Str),
     (∀ v, deser (ser v) = some v) ∧ (∀ v, isRef (ser v) = false) ∧ NoColl H (fun _ => True) :=
